@@ -8,6 +8,10 @@ for pid in "$@"; do
 done
 git -C /repo checkout -- .
 git -C /repo status --short | head -3
+# the evidence files must describe the unchanged tree: rewrite them
+for pid in "$@"; do
+  timeout 1800 ./check $pid --tier quick > /dev/null 2>&1 || echo "WARNING: $pid does not pass on the unchanged tree"
+done
 # bring the regenerated tables back to the unchanged tree
 python3 -c "
 import sys; sys.path.insert(0,'/verif')
